@@ -53,7 +53,8 @@ AllDeviations == {"ConsentAfterClose",  \* ice.start() ignores that stop() overt
                   "DecoderNotJoined",   \* receiver.stop() leaves the decoder thread
                   "SctpStopGuard",      \* sctp.stop() returns at once when the association already died by itself
                   "ChanOnClosed",       \* createDataChannel works on a closed connection (no closed latch check)
-                  "StartEventSkipped"}  \* ice.start() interrupted by stop() returns without setting its `started` event
+                  "StartEventSkipped",  \* ice.start() interrupted by stop() returns without setting its `started` event
+                  "ReconfigTimerSurvivesStop"}  \* sctp _set_state(CLOSED) leaves the RE-CONFIG retransmission timer armed
 
 ASSUME Deviations \subseteq AllDeviations /\ DevSel \subseteq AllDeviations \cup {"none"} /\ Levels \subseteq Nat /\ AppChans \subseteq {0, 1}
 ASSUME Users \subseteq {"u1", "u2"}
@@ -108,7 +109,7 @@ Init ==
                                   consent |-> "none", check |-> "none", local |-> FALSE]],
            mon  |-> [t \in T |-> "none"],
            dtls |-> [t \in T |-> [st |-> "new", pump |-> "none"]],
-           sctp |-> [started |-> FALSE, assoc |-> "closed", reg |-> FALSE, dead |-> FALSE],
+           sctp |-> [started |-> FALSE, assoc |-> "closed", reg |-> FALSE, dead |-> FALSE, rtimer |-> FALSE],
            chan |-> IF cfg.dc THEN "connecting" ELSE "none",
            chan2 |-> "none",        \* a channel the application creates later (createDataChannel never looks at SCTP)
            snd  |-> [started |-> FALSE, rtp |-> "none", rtcp |-> "none"],
@@ -134,7 +135,9 @@ TaskNames(s) ==
   (IF Live(s.snd.rtp) THEN {<<"rtp", 0>>} ELSE {}) \cup
   (IF Live(s.snd.rtcp) THEN {<<"srtcp", 0>>} ELSE {}) \cup
   (IF Live(s.rcv.rtcp) THEN {<<"rrtcp", 0>>} ELSE {}) \cup
-  (IF s.cl["auto"].lbl \notin {"idle", "done"} THEN {<<"autoclose", 0>>} ELSE {})
+  (IF s.cl["auto"].lbl \notin {"idle", "done"} THEN {<<"autoclose", 0>>} ELSE {}) \cup
+  \* a retransmission timer left armed by a closed association keeps starting send tasks
+  (IF s.sctp.rtimer /\ s.sctp.assoc = "closed" THEN {<<"reconfig_retransmission", 0>>} ELSE {})
 
 ThreadNames(s) == IF s.rcv.dec = "run" THEN {"decoder"} ELSE {}
 
@@ -192,7 +195,9 @@ SetChan2(s, new) ==
   ELSE Emit([s EXCEPT !.chan2 = new], IF new = "open" THEN "channel:open" ELSE "channel:close")
 
 \* RTCSctpTransport._set_state(CLOSED): public state "closed", every channel known NOW is closed
-SctpClosed(s) == SetChan2(SetChan([s EXCEPT !.sctp.assoc = "closed", !.sctp.dead = TRUE], "closed"), "closed")
+SctpClosed(s) == SetChan2(SetChan([s EXCEPT !.sctp.assoc = "closed", !.sctp.dead = TRUE,
+                                                !.sctp.rtimer = IF Dev(s, "ReconfigTimerSurvivesStop") THEN @ ELSE FALSE],
+                                   "closed"), "closed")
 
 \* RTCRtpReceiver.__stop_decoder: the thread ends, puts None into the track queue, is joined
 StopDecoder(s) ==
@@ -411,6 +416,20 @@ AppChan ==
   /\ st' = [st EXCEPT !.chan2 = "connecting"]
   /\ act' = [op |-> "app_chan"]
 
+\* the application closes its open channel: a stream reset request is sent and the
+\* retransmission timer armed (RTCSctpTransport._transmit_reconfig / _reconfig_timer_start)
+AppCloseChan ==
+  /\ st.cfg.app > 0 /\ st.chan = "open" /\ st.sctp.assoc = "est" /\ st.fut = "none"
+  /\ st' = [st EXCEPT !.chan = "closing", !.sctp.rtimer = TRUE]
+  /\ act' = [op |-> "app_close_chan"]
+
+\* the peer answers the reset: the channel is closed, the timer cancelled
+ChanReset ==
+  /\ st.chan = "closing" /\ st.sctp.rtimer /\ st.sctp.assoc = "est" /\ st.peer = "alive"
+  /\ st.dtls[SctpT(st)].st = "connected" /\ st.dtls[SctpT(st)].pump = "run"
+  /\ st' = SetChan([st EXCEPT !.sctp.rtimer = FALSE], "closed")
+  /\ act' = [op |-> "chan_reset"]
+
 \* DCEP OPEN / ACK for the late channel on an established association
 Chan2Up ==
   /\ st.chan2 = "connecting" /\ st.sctp.reg /\ st.sctp.assoc = "est" /\ st.peer = "alive"
@@ -621,7 +640,7 @@ ClMon(k) ==
 \* steps the application / the remote side may or may not take
 Optional ==
   \/ \E k \in {"u1", "u2"} : CloseCall(k)
-  \/ SLCall \/ SRCall \/ PeerLeaves \/ AppChan
+  \/ SLCall \/ SRCall \/ PeerLeaves \/ AppChan \/ AppCloseChan
 
 \* steps that happen by themselves (weak fairness)
 Internal ==
@@ -630,7 +649,7 @@ Internal ==
                   \/ CheckCancelled(t) \/ MonWake(t) \/ ConsentCancelled(t) \/ ConsentExpire(t)
                   \/ PumpStart(t) \/ PumpCancelled(t) \/ PumpError(t)
   \/ \E f \in {"rtp", "rtcp", "rrtcp"} : RtpTaskStart(f) \/ RtpTaskCancelled(f)
-  \/ RtpDies \/ SctpUp \/ SctpPeerAbort \/ Chan2Up \/ Consume
+  \/ RtpDies \/ SctpUp \/ SctpPeerAbort \/ Chan2Up \/ ChanReset \/ Consume
   \/ SLGathered \/ SRDone
   \/ AutoRun
   \/ \E k \in K : ClWaitFut(k) \/ ClRcvStarted(k) \/ ClRcvExited(k) \/ ClSndStarted(k) \/ ClSndExited(k)
@@ -677,6 +696,9 @@ WitPeerGoneFirst  == ~(st.peer = "gone" /\ Closing(st) /\ st.snd.started)
 WitRcvStartedWait == ~(\E k \in K : st.cl[k].lbl = "rcvstarted")
 WitIceFix         == ~(\E c \in C : st.co[c].lbl = "icefix")
 WitLateChannel    == ~(st.chan2 = "connecting" /\ st.sctp.dead /\ st.fut = "none")   \* created after the association died
+WitTimerAtClose == ~(st.chan = "closing" /\ st.sctp.rtimer /\ st.fut = "none")   \* a stream reset is unanswered and close() may come
+\* (that close() then meets the armed timer is shown by the deviation ReconfigTimerSurvivesStop,
+\*  which must break SettledOK; without media the whole close() body is one atomic step)
 WitIceWaitClosing == ~(Closing(st) /\ \E c \in C : st.co[c].lbl = "icewait")     \* a second __connect is parked behind ice.start()
 \* Sensitivity: with DevSel = a set of deviations (and none of the invariants above in the
 \* configuration) every chosen deviation must break one of them somewhere.
@@ -688,7 +710,7 @@ DevProbe == DevBroken("PostStates", PostStates) /\ DevBroken("NoLateEvent", NoLa
 
 \* Reports the witnesses seen inside an exhaustive run of the other invariants: prints
 \* <<"WITNESS", name>> the first time a worker reaches a state violating the witness.
-ASSUME \A i \in 1..12 : TLCSet(i, 0)
+ASSUME \A i \in 1..13 : TLCSet(i, 0)
 Probe(i, name, violated) == (violated /\ TLCGet(i) = 0) => (TLCSet(i, 1) /\ PrintT(<<"WITNESS", name>>))
 WitnessProbe ==
   /\ Probe(1, "WitCloseAtIceConn", ~WitCloseAtIceConn)
@@ -703,4 +725,5 @@ WitnessProbe ==
   /\ Probe(10, "WitIceFix", ~WitIceFix)
   /\ Probe(11, "WitLateChannel", ~WitLateChannel)
   /\ Probe(12, "WitIceWaitClosing", ~WitIceWaitClosing)
+  /\ Probe(13, "WitTimerAtClose", ~WitTimerAtClose)
 =============================================================================
